@@ -26,7 +26,7 @@ def run_one(m):
         for prop in m.get('props') or ALL:
             r = subprocess.run([os.path.join(HERE, 'check'), prop, '--repo', d, '--no-evidence', '--tier', 'quick'],
                                stdout=subprocess.PIPE, stderr=subprocess.STDOUT, text=True)
-            if r.returncode != 0:
+            if r.returncode != 0 or 'INCONCLUSIVE property=' in r.stdout:
                 lines = [l.strip() for l in r.stdout.splitlines() if l.startswith('  C') or l.startswith('INCONCLUSIVE property')]
                 res.append('%s exit %d: %s' % (prop, r.returncode, (lines or ['?'])[0][:260]))
         st = 'silent' if not res else ('ALARM' if any(' exit 1:' in x for x in res) else 'inconcl')
@@ -51,7 +51,7 @@ def main():
             print('%-34s %-8s %s' % (mid, status, detail))
             bad += status == 'ALARM'
             inc += status == 'inconcl'
-    print('benign refactors: %d, false VIOLATION alarms: %d, inconclusive (exit 2): %d' % (len(ms), bad, inc))
+    print('benign refactors: %d, false VIOLATION alarms: %d, INCONCLUSIVE lines (no alarm): %d' % (len(ms), bad, inc))
     return 1 if bad else 0
 
 
